@@ -426,6 +426,16 @@ struct Huge : Base
 {
     char big[70000];
 };
+// a base without alignment needs and a derived type with more than the base's: the deleters that erase the derived type
+// must release with the derived type's size AND alignment
+struct SmallBase
+{
+    char tag;
+};
+struct alignas(32) Wide : SmallBase
+{
+    double d[3];
+};
 
 template <class T, class C>
 static void std_case(C& c, std::size_t n)
@@ -489,6 +499,29 @@ static void front_ends(C& c, const char* expr)
         begin_op();
         p.reset();
         emit(fmt("cmp dealloc 1 %zu 8 8 owner=%d", n, owner), "done");
+    }
+    { // unique_base_ptr from an over-aligned derived type
+        begin_op();
+        unique_base_ptr<SmallBase, C> p = allocate_unique<Wide>(c);
+        emit(fmt("cmp alloc 0 1 %zu %zu", sizeof(Wide), alignof(Wide)), "ok");
+        int owner = leaf_of(p.get());
+        begin_op();
+        p.reset();
+        emit(fmt("cmp dealloc 0 1 %zu %zu owner=%d", sizeof(Wide), alignof(Wide), owner), "done");
+    }
+    { // the non-destructing pair: allocator_deallocator<Derived> converted to allocator_polymorphic_deallocator<Base>
+        begin_op();
+        allocator_reference<C> ref(c);
+        void*                  mem = ref.allocate_node(sizeof(Wide), alignof(Wide));
+        emit(fmt("cmp alloc 0 1 %zu %zu", sizeof(Wide), alignof(Wide)), "ok");
+        int   owner = leaf_of(mem);
+        Wide* w = ::new (mem) Wide();
+        std::unique_ptr<Wide, allocator_deallocator<Wide, C>>                      up(w, allocator_deallocator<Wide, C>(ref));
+        std::unique_ptr<SmallBase, allocator_polymorphic_deallocator<SmallBase, C>> bp(up.release(),
+                                                                                       allocator_polymorphic_deallocator<SmallBase, C>(up.get_deleter()));
+        begin_op();
+        bp.reset();
+        emit(fmt("cmp dealloc 0 1 %zu %zu owner=%d", sizeof(Wide), alignof(Wide), owner), "done");
     }
     { // unique_base_ptr: a derived type above 64 KiB (size used to be truncated to 16 bits)
         begin_op();
